@@ -323,6 +323,8 @@ func doProvide(rt *RT, sc scopeAPI, op Op, out *OpOut) error {
 		}
 		if o.Export {
 			popts = append(popts, dig.Export(true))
+		} else if o.ExportFalse {
+			popts = append(popts, dig.Export(false))
 		}
 		if o.InfoNil {
 			// before the real one: the later option wins
